@@ -437,4 +437,49 @@ example : ∃ inv w, wellFormed inv ∧ cliDom inv w = true ∧ exitOf (cliStage
     configuredOf, generateStage, generateOutcome, needsCpp, readsCpp, cppReaders, allKinds, exportReadsCpp, readyDom,
     reportStage, knownTarget]
 
+/-! ## multi-file projects and `-o` values -/
+
+/-- A project whose import graph has a cycle or a dangling import ends with the documented code of that class (150 / 2), without
+a traceback and without any output — whatever else is recorded afterwards —, provided the stages before the front end passed. -/
+theorem project_failure_exit (inv : Invocation) (w : World) (c : ProjectClass) (more : List Nat) (clean : Bool)
+    (targets : List String) (opts t : Kids) (cts : List TargetDef)
+    (htop : inv.topOk = true) (hcmd : inv.command = .generate true clean targets) (hne : targets ≠ [])
+    (hopts : optionsStage inv = .ok opts) (hconf : configureOutcome inv w = .ok t) (hready : readyOutcome inv w = .ok cts)
+    (hfront : w.front = projectFront c more) (hc : c ≠ .valid) :
+    specProject c (exitOf (cliStages inv w)) = true ∧ eventsOf (cliStages inv w) = [] := by
+  have hne' : targets.isEmpty = false := by cases targets <;> simp_all
+  unfold cliStages
+  cases c with
+  | valid => exact absurd rfl hc
+  | cycle => simp [hcmd, htop, hne', hopts, hconf, hready, hfront, projectFront, exitOf, eventsOf, ofOutcome, handler, specProject, ProjectClass.code]
+  | missingImport => simp [hcmd, htop, hne', hopts, hconf, hready, hfront, projectFront, exitOf, eventsOf, ofOutcome, handler, specProject, ProjectClass.code]
+
+/-- A valid project passes the front end: the exit status is decided by the stages after it (0 when every requested generator runs). -/
+theorem project_valid_passes_front (inv : Invocation) (w : World) (more : List Nat) (clean : Bool)
+    (targets : List String) (opts t : Kids) (cts : List TargetDef)
+    (htop : inv.topOk = true) (hcmd : inv.command = .generate true clean targets) (hne : targets ≠ [])
+    (hopts : optionsStage inv = .ok opts) (hconf : configureOutcome inv w = .ok t) (hready : readyOutcome inv w = .ok cts)
+    (hfront : w.front = projectFront .valid more) (hdebug : inv.debug = false) (hnames : targets.all knownTarget = true) :
+    exitOf (cliStages inv w) = exitOf (targets.map (generateStage (configuredOf inv w) w clean) ++ [reportStage w]) := by
+  have hne' : targets.isEmpty = false := by cases targets <;> simp_all
+  unfold cliStages
+  simp [hcmd, htop, hne', hopts, hconf, hready, hfront, projectFront, exitOf, ofOutcome, hdebug, hnames]
+
+/-- **The value of `-o key=value` is everything after the first `=`**: whatever text the value is — further `=`, `:`, `,`, blanks,
+`#`, quotes, any character — as long as it is not of the bracketed list form, the options stage yields exactly the assignment
+`key := value` (so the command line is the API call with that options dictionary). Corollary of C17's `parseOption_render`. -/
+theorem cli_option_value_verbatim (inv : Invocation) (p : List String) (v : String)
+    (hp : optSafe (p, .str v) = true) (ho : inv.options = [renderOption (p, .str v)]) :
+    optionsStage inv = .ok (insertLeaf [] (p, .str v)) := by
+  unfold optionsStage
+  rw [ho]
+  have h := foldOptions_render [(p, Val.str v)] [] (by intro pv hpv; simp at hpv; subst hpv; exact hp)
+  simpa [foldIns] using h
+
+-- `-o generate.cpp.out=build/mode=debug/cpp`: key `generate.cpp.out`, value `build/mode=debug/cpp` (compiled evaluation: a test)
+#guard (match parseOption "generate.cpp.out=build/mode=debug/cpp" with
+  | .ok (p, .str v) => p == ["generate", "cpp", "out"] && v == "build/mode=debug/cpp"
+  | _ => false)
+
+
 end Pydjinni.Sys
